@@ -157,6 +157,44 @@ pub fn lib_feed(de: &mut ChunkDeserializer, piece: &[u8], out: &mut Vec<Msg>) ->
     }
 }
 
+/// "Each message is delivered when its last chunk arrives": feeds `stream` cut exactly at the end
+/// offsets of the reference deliveries (ascending; only those up to `limit` are judged, the rest of
+/// the stream is not fed) and requires that the call which supplies the last byte of the k-th
+/// message has delivered exactly k messages, the k-th being `want[k-1]`.
+pub fn lib_delivery_timing(stream: &[u8], ends: &[u64], want: &[Msg], limit: usize) -> Option<String> {
+    let mut de = ChunkDeserializer::new();
+    let mut out: Vec<Msg> = Vec::new();
+    let mut pos = 0usize;
+    let mut k = 0usize;
+    while k < ends.len() {
+        let end = ends[k] as usize;
+        if end > limit || end > stream.len() {
+            break;
+        }
+        // several messages may end at the same offset only if one of them is empty, which cannot
+        // happen (every chunk has at least a basic header); still, count all ends <= this one
+        let mut upto = k + 1;
+        while upto < ends.len() && ends[upto] as usize == end {
+            upto += 1;
+        }
+        if let Some(e) = lib_feed(&mut de, &stream[pos..end], &mut out) {
+            return Some(format!("delivery timing: error while feeding bytes {}..{}: {}", pos, end, e));
+        }
+        if out.len() != upto {
+            return Some(format!(
+                "delivery timing: after the call that supplied the last byte (offset {}) of message #{} the deserializer has delivered {} message(s), expected {} (each message is due when its last chunk arrives)",
+                end, upto, out.len(), upto
+            ));
+        }
+        if out[upto - 1] != want[upto - 1] {
+            return Some(format!("delivery timing: message #{} delivered differs from the reference", upto));
+        }
+        pos = end;
+        k = upto;
+    }
+    None
+}
+
 pub fn first_difference(got: &[Msg], want: &[Msg]) -> Option<String> {
     for i in 0..got.len().max(want.len()) {
         match (got.get(i), want.get(i)) {
